@@ -109,9 +109,9 @@ func trunc(b []byte, n int) []byte {
 
 // StateDigest iterates every key/value of both committed IAVL trees (state, identity state).
 type StateDigest struct {
-	State, Identity       string
-	StateKeys, IdentKeys  int
-	Root, IdentityRoot    common.Hash
+	State, Identity      string
+	StateKeys, IdentKeys int
+	Root, IdentityRoot   common.Hash
 }
 
 func DigestState(as *appstate.AppState) StateDigest {
@@ -214,8 +214,8 @@ func FirstStateDiff(a, b map[string][]byte) string {
 
 type LedgerEntry struct {
 	Balance, Stake, Locked, Replenished, ContractStake *big.Int
-	HasIdentity, HasAccount                             bool
-	State                                               state.IdentityState
+	HasIdentity, HasAccount                            bool
+	State                                              state.IdentityState
 }
 
 type Ledger struct {
